@@ -123,6 +123,42 @@ Proof.
   repeat split; reflexivity.
 Qed.
 
+(* ---- the result of array arithmetic is indexed like any array of its shape ------------------- *)
+Lemma dim_copy_id : forall dv, dim_copy dv = dv.
+Proof. induction dv as [|[n mu] t IH]; cbn; congruence. Qed.
+
+Lemma new_arr_mk exts : a_dv (new_arr exts) = mk_arr exts.
+Proof. reflexivity. Qed.
+
+(* add/sub, negation, scalar multiple: the result carries exactly the dimension vector
+   (extents and row-major multipliers) of a freshly built array of the operand's shape, for
+   every number of dimensions; the matrix product likewise for [m; n].  Hence
+   array_deref_spec applies to results: r[i, j, k, ..] is the row-major element. *)
+Theorem arith_result_indexing : forall e,
+  (exists acc, arr_addsub (Some (new_arr e)) (Some (new_arr e)) = Ok acc /\ acc_dv acc = mk_arr e) /\
+  (exists acc, arr_unary (Some (new_arr e)) = Ok acc /\ acc_shape acc = e /\ acc_dv acc = mk_arr e /\
+     forall w r1 r2, In (w, r1, r2) (acc_reads acc) -> w = r1 /\ 0 <= r1 < a_elems (new_arr e)) /\
+  arr_unary None = Exc NilPointer /\
+  (forall m k n acc, arr_matmul (Some (new_arr [m; k])) (Some (new_arr [k; n])) = Ok acc ->
+     acc_dv acc = mk_arr [m; n]) /\
+  (forall idx, array_deref (Some (a_dv (arr_copy (new_arr e)))) idx = array_deref (Some (mk_arr e)) idx).
+Proof.
+  intros e. split; [|split; [|split; [|split]]].
+  - unfold arr_addsub.
+    assert (E : can_add (Some (new_arr e)) (Some (new_arr e)) = true) by (apply can_add_spec; reflexivity).
+    rewrite E. cbn [negb]. eexists. split; [reflexivity|]. cbn [acc_dv arr_copy a_dv].
+    rewrite dim_copy_id. apply new_arr_mk.
+  - unfold arr_unary. eexists. split; [reflexivity|]. cbn [acc_shape acc_dv acc_reads arr_copy a_dv].
+    split; [apply new_arr_dv|]. split; [rewrite dim_copy_id; apply new_arr_mk|].
+    intros w r1 r2 Hin. apply in_map_iff in Hin. destruct Hin as [x [Hx Hin]].
+    inversion Hx; subst. apply in_upto in Hin. split; [reflexivity|lia].
+  - reflexivity.
+  - intros m k n acc H. unfold arr_matmul in H.
+    destruct (can_mult (Some (new_arr [m; k])) (Some (new_arr [k; n]))); cbn [negb] in H; [|discriminate].
+    rewrite !dv_elems_new in H. cbn [nth] in H. inversion H; subst. reflexivity.
+  - intros idx. cbn [arr_copy a_dv]. rewrite dim_copy_id. reflexivity.
+Qed.
+
 Example shape_conformance_example :
   can_add (Some (new_arr [2; 3])) (Some (new_arr [2; 3])) = true /\
   can_add (Some (new_arr [2; 3])) (Some (new_arr [3; 2])) = false /\
